@@ -612,9 +612,10 @@ func TestC11Random(t *testing.T) {
 			level: rapid.SampledFrom([]byte{4, 4, 4, 3, 5, 0}).Draw(t, "level"),
 			flags: byte(rapid.IntRange(0, 255).Draw(t, "flags")),
 			id:    rapid.SampledFrom(append([]string{"x", "client42", "ABCDEFGHIJKLMNOPQRSTUVW"}, c11IDs...)).Draw(t, "id"),
-			user:  rapid.SampledFrom([]string{"user", "user", "other", ""}).Draw(t, "user"),
-			pass:  rapid.SampledFrom([]string{"pass", "pass", "wrong", ""}).Draw(t, "pass"),
-			will:  rapid.SampledFrom([]int{0, 0, 90, 150, 20000}).Draw(t, "willlen"),
+			// besides right and wrong credentials: wrong pairs whose concatenation equals the accepted pair's
+			user: rapid.SampledFrom([]string{"user", "user", "other", "", "userp", "use", "userpass"}).Draw(t, "user"),
+			pass: rapid.SampledFrom([]string{"pass", "pass", "wrong", "", "ass", "rpass"}).Draw(t, "pass"),
+			will: rapid.SampledFrom([]int{0, 0, 90, 150, 20000}).Draw(t, "willlen"),
 		}
 		if rapid.Bool().Draw(t, "sane-flags") {
 			cs.flags &= 2 | 4 | 8 | 32 | 64 | 128
